@@ -87,8 +87,9 @@ static_assert(NCFG > 0, "empty configuration space");
 
 // verdicts of the executed configuration (asserted once, after the dispatch)
 static bool r_fits, r_frame, r_live, r_distinct, r_designated, r_others, r_noop;
-static int g_bad, g_stale;
+static int g_neg, g_big, g_stale;
 static Db* g_db;
+static VfTab g_pre;
 
 __attribute__((noinline)) static void step(const Cfg& c)
 {
@@ -98,14 +99,17 @@ __attribute__((noinline)) static void step(const Cfg& c)
   // the identifier argument
   int iuid;
   if (c.wj >= 0) iuid = db->_p[c.wj]._r[c.wq];
-  else if (c.wj == W_NEG) { iuid = g_bad; vf_assume(iuid < 0); }
-  else if (c.wj == W_BIG) { iuid = g_bad; vf_assume(iuid >= VF_NUID); }
+  else if (c.wj == W_NEG) iuid = g_neg;
+  else if (c.wj == W_BIG) iuid = g_big;
   else if (c.wj == W_STALE) iuid = g_stale;
   else iuid = g_pool[used]; // live, no role
-  static VfTab pre, post, ref;
-  vf_assume(vf_snapshot(db, pre));
+  static VfTab post, ref;
+  VfTab& pre = g_pre; // identifier table and values: taken before the dispatch; lists: from the pool
+  vf_tab_lists(pre, c.l);
   ref = pre;
 
+  vf_out_int(c.l[0]); vf_out_int(c.l[1]); vf_out_int(c.l[2]); vf_out_int(c.t); vf_out_int(c.k);
+  vf_out_int(c.clean); vf_out_int(c.wj); vf_out_int(c.wq);
   VfLoc loc(c.t);
   db->setLocatorByUID(iuid, loc.get(), c.k, c.clean); // REAL code
 
@@ -140,13 +144,7 @@ __attribute__((noinline)) static void step(const Cfg& c)
     int kk = c.k < 0 ? post.len[c.t] - 1 : c.k;
     r_designated = kk >= 0 && kk < post.len[c.t] && post.lst[c.t][kk] == iuid;
   }
-  bool same = true;
-  for (int j = 0; j < VF_NELOC; j++)
-  {
-    if (post.len[j] != ref.len[j]) { same = false; continue; }
-    for (int i = 0; i < ref.len[j]; i++)
-      if (post.lst[j][i] != ref.lst[j][i]) same = false;
-  }
+  bool same = vf_same_lists(post, ref);
   if (valid) r_others = same;
   else r_noop = same;
 #elif VF_MODE == 1
@@ -165,11 +163,10 @@ extern "C" void k_set_locator()
 {
   vf_eloc_init();
   g_db    = vf_db_tables();
-  g_bad   = vf_nondet_int();
-  g_stale = vf_range(0, VF_NUID - 1);
-#if VF_MODE == 2
-  vf_assume(g_db->_uidcol[g_stale] < 0);
-#endif
+  g_neg   = vf_range(-2147483647 - 1, -1);
+  g_big   = vf_range(VF_NUID, 2147483647);
+  g_stale = vf_dead_uid(g_db, vf_range(0, VF_NUID - VF_NCOL - 1));
+  vf_assume(vf_snapshot(g_db, g_pre));
   int cfg = vf_range(0, NCFG - 1);
   VfDispatch<Leaf, 0, NCFG - 1>::go(cfg);
 
